@@ -360,6 +360,7 @@ func C04(c *core.Ctx) {
 	c.Floor("R4.6", "constant / last-element indices into decoded slices", nConstDecided, 2)
 
 	c04Round4(c)
+	c04Round4b(c)
 	// ---- R4.11 (shared with C03 R3.6) the segmented reader steps over every exhausted segment
 	c.Import(C03, "R4.11", "a wire with two empty segments in a row (which the no-copy encoder emits for an empty content buffer) makes the segmented reader index out of range: ReadData / ReadPacket panic", 1, func(k string) bool {
 		return strings.HasPrefix(k, "R3.6:segment-advance")
@@ -1125,5 +1126,116 @@ func c04Round4(c *core.Ctx) {
 		} else {
 			c.Decide(bounded, "R4.10", "reassembly-store-bounded", c.Pos(create), "the number of partially received messages is tested before an entry is created", "reassemblePacket creates an entry (a slot list of FragCount elements) for every first fragment and never gives up unfinished messages: 2000 frames of 22 bytes announcing FragCount=8800 make a face retain about 400 MB — memory out of proportion to the input, over a history of frames")
 		}
+	}
+}
+
+// c04Round4b — rules prompted by the second hunt on the repaired tree.
+//
+// R4.13 "memory in proportion to the input": the slot table of a partially reassembled
+// message is not sized by the fragment count a single frame announces (up to 8800 slots of
+// 24 bytes for an 18-byte frame). (Known finding on the current tree.)
+//
+// R4.14 "a frame that fails to decode changes no forwarder state other than counters": the
+// UDP listener creates the on-demand face of an unknown endpoint only on an edge asserting
+// that the datagram decodes (one element, ReadPacket without error).
+//
+// R4.15 the segmented reader reserves room in proportion to what is read: the capacity of
+// the wire that ReadWire returns does not derive from the number of segments of the whole
+// input (a packet of many small elements in many segments cost segments x reads memory).
+func c04Round4b(c *core.Ctx) {
+	p := c.P
+	// ---- R4.13
+	if ra := c.Fn("R4.13", "fw/face", "NDNLPLinkService", "reassemblePacket"); ra != nil {
+		var sized []string
+		nMake := 0
+		core.InstrsDeep(ra, func(in ssa.Instruction) {
+			ms, ok := in.(*ssa.MakeSlice)
+			if !ok {
+				return
+			}
+			nMake++
+			if _, isPar := core.StripConv(ms.Len).(*ssa.Parameter); isPar {
+				sized = append(sized, c.Pos(in))
+			}
+		})
+		c.Decide(len(sized) == 0, "R4.13", "reassembly-slots-not-sized-by-announced-count", p.Pos(ra.Pos()), fmt.Sprintf("%d allocations in reassemblePacket, none sized by the announced fragment count", nMake), "reassemblePacket allocates the slot table of a message by the FragCount of the first frame that arrives ("+strings.Join(sized, ", ")+"; accepted up to the maximum packet size): one 18-byte frame allocates and retains about 214 KB, 32 of them pin 6.8 MB per face, and every further one discards those and allocates again — memory out of proportion to the input")
+	}
+	// ---- R4.14
+	if run := c.Fn("R4.14", "fw/face", "UDPListener", "Run"); run != nil {
+		var creates []ssa.Instruction
+		core.Instrs(run, func(in ssa.Instruction) {
+			if ci, ok := in.(ssa.CallInstruction); ok {
+				if id, okID := core.Callee(ci.Common()); okID && (id.Name == "MakeUnicastUDPTransport" || id.Name == "MakeNDNLPLinkService") {
+					creates = append(creates, in)
+				}
+			}
+		})
+		decodes := &core.Atom{Name: "ReadPacket err == nil", Match: func(cond ssa.Value) (int, int) {
+			op, x, y, ok := core.Cmp(cond)
+			if !ok || (op != token.EQL && op != token.NEQ) {
+				return 0, 0
+			}
+			if core.IsNilConst(x) {
+				x, y = y, x
+			}
+			if !core.IsNilConst(y) {
+				return 0, 0
+			}
+			ex, isEx := core.Strip(x).(*ssa.Extract)
+			if !isEx {
+				return 0, 0
+			}
+			cl, isCall := ex.Tuple.(*ssa.Call)
+			if !isCall {
+				return 0, 0
+			}
+			if id, okID := core.Callee(&cl.Call); !okID || id.Name != "ReadPacket" {
+				return 0, 0
+			}
+			return core.Iff(op == token.EQL)
+		}}
+		g := core.GateDeep(run, creates, pos(decodes))
+		c.Decide(len(creates) > 0 && g.OK && g.PassEdges > 0, "R4.14", "udp-face-only-for-a-decodable-datagram", p.Pos(run.Pos()), fmt.Sprintf("%d face-creating calls in the UDP listener, behind a successful decode of the datagram", len(creates)), "the UDP listener creates and registers an on-demand face for a datagram from an unknown endpoint without having decoded it: a datagram that fails to decode adds a face-table entry, dispatch entries, two goroutines and buffers for the idle lifetime of a UDP face — state other than counters")
+	}
+	// ---- R4.15
+	if rw := c.Fn("R4.15", "std/encoding", "WireReader", "ReadWire"); rw != nil {
+		bad := ""
+		nMake := 0
+		core.Instrs(rw, func(in ssa.Instruction) {
+			ms, ok := in.(*ssa.MakeSlice)
+			if !ok {
+				return
+			}
+			nMake++
+			seen := map[ssa.Value]bool{}
+			var walk func(v ssa.Value) bool
+			walk = func(v ssa.Value) bool {
+				v = core.StripConv(v)
+				if v == nil || seen[v] {
+					return false
+				}
+				seen[v] = true
+				if l, isLen := core.LenOf(v); isLen {
+					if _, path := core.FieldPath(l); len(path) > 0 && path[len(path)-1] == "wire" {
+						return true
+					}
+				}
+				switch x := v.(type) {
+				case *ssa.BinOp:
+					return walk(x.X) || walk(x.Y)
+				case *ssa.Phi:
+					for _, e := range x.Edges {
+						if walk(e) {
+							return true
+						}
+					}
+				}
+				return false
+			}
+			if walk(ms.Cap) || walk(ms.Len) {
+				bad = c.Pos(in)
+			}
+		})
+		c.Decide(nMake > 0 && bad == "", "R4.15", "segmented-read-reserves-in-proportion", p.Pos(rw.Pos()), fmt.Sprintf("%d allocations in ReadWire, none sized by the segment count of the whole input", nMake), "WireReader.ReadWire sizes the wire it returns by the number of segments of the whole input ("+bad+"), for every read however short: an 8800-byte packet of 4398 empty elements split into one-byte segments allocates 480 MB through the segmented reader and 106 KB through the contiguous one")
 	}
 }
